@@ -50,8 +50,8 @@ type Net struct {
 	mu        sync.Mutex
 	listeners map[string]*Listener
 	conns     []*Conn
-	last      time.Time // last allocated delivery instant
 	nextPort  int
+	tickets   int
 	dead      bool
 
 	Latency time.Duration                     // one-way latency
@@ -130,19 +130,19 @@ func (n *Net) tcpAddr(addr string) (*net.TCPAddr, error) {
 	return &net.TCPAddr{IP: n.resolve(host), Port: p}, nil
 }
 
-// slot allocates a delivery instant: at least `want`, after every instant allocated before, outside a partition.
-func (n *Net) slot(want time.Time) time.Time {
+// instant returns the delivery instant for `want` on the stream with offset off (nanoseconds, unique per
+// stream and per connect): an instant depends only on the simulated time of the write and on the stream, not
+// on how many writes the (un-yielded, parallel) library goroutines happened to split their data into; streams
+// get different offsets so that the clock does not wake the readers of two streams at the same instant.
+func (n *Net) instant(want time.Time, off int) time.Time {
 	n.mu.Lock()
 	defer n.mu.Unlock()
 	if !n.PartitionTo.IsZero() && !want.Before(n.PartitionFrom) && want.Before(n.PartitionTo) {
 		want = n.PartitionTo
 		n.Fired["partition-held"]++
 	}
-	if !want.After(n.last) {
-		want = n.last.Add(time.Nanosecond)
-	}
-	n.last = want
-	return want
+	// whole microseconds plus the stream's offset: offsets never accumulate over successive hops
+	return want.Truncate(time.Microsecond).Add(time.Duration(off%1000) * time.Nanosecond)
 }
 
 // Kill closes everything (teardown: library goroutines must exit).
@@ -240,6 +240,7 @@ type stream struct {
 	finSent bool
 	rstSent bool
 	stalled bool
+	off     int // unique offset of this stream (ns)
 }
 
 func (s *stream) signal() {
@@ -390,6 +391,12 @@ func (e *endpoint) Write(b []byte) (int, error) {
 				q.mu.Unlock()
 			} else {
 				want := time.Now().Add(lat)
+				if chunk > 0 {
+					// segmentation: the k-th chunk of the stream arrives k ns later (a function of the byte position only)
+					q.mu.Lock()
+					want = want.Add(time.Duration(q.sent/int64(chunk)%1000) * time.Nanosecond)
+					q.mu.Unlock()
+				}
 				q.mu.Lock()
 				stallNow := false
 				if !e.client && c.Plan.StallS2CAt >= 0 && !q.stalled && q.sent+int64(len(piece)) > c.Plan.StallS2CAt {
@@ -404,10 +411,23 @@ func (e *endpoint) Write(b []byte) (int, error) {
 				if stallNow {
 					n.fire("stall-s2c")
 				}
-				at := n.slot(want)
 				q.mu.Lock()
+				if want.Before(q.last) {
+					want = q.last
+				}
+				q.mu.Unlock()
+				at := n.instant(want, q.off)
+				q.mu.Lock()
+				if at.Before(q.last) {
+					at = q.last
+				}
 				q.last = at
-				q.segs = append(q.segs, segment{at: at, data: piece})
+				if k := len(q.segs); k > 0 && q.segs[k-1].at.Equal(at) && !q.segs[k-1].fin && !q.segs[k-1].rst && chunk == 0 {
+					// written at the same simulated instant: one segment, however the writer split it
+					q.segs[k-1].data = append(q.segs[k-1].data, piece...)
+				} else {
+					q.segs = append(q.segs, segment{at: at, data: piece})
+				}
 				q.sent += int64(len(piece))
 				q.mu.Unlock()
 				q.signal()
@@ -450,8 +470,11 @@ func (c *Conn) reset() {
 			want = q.last
 		}
 		q.mu.Unlock()
-		at := c.n.slot(want)
+		at := c.n.instant(want, q.off)
 		q.mu.Lock()
+		if at.Before(q.last) {
+			at = q.last
+		}
 		q.last = at
 		q.rstSent = true
 		q.segs = append(q.segs, segment{at: at, rst: true})
@@ -480,8 +503,11 @@ func (e *endpoint) Close() error {
 			want = q.last
 		}
 		q.mu.Unlock()
-		at := e.c.n.slot(want)
+		at := e.c.n.instant(want, q.off)
 		q.mu.Lock()
+		if at.Before(q.last) {
+			at = q.last
+		}
 		q.last = at
 		q.finSent = true
 		q.segs = append(q.segs, segment{at: at, fin: true})
@@ -564,7 +590,37 @@ func DialFunc(ctx context.Context, addr string) (net.Conn, error) {
 	return n.Dial(ctx, 0, addr)
 }
 
+// Ticket reserves a deterministic identity for connections that a library will dial later from its own
+// goroutines (grpc-go connects lazily): the ticket is taken by the calling task, so ticket order = task order.
+func (n *Net) Ticket() int {
+	n.mu.Lock()
+	defer n.mu.Unlock()
+	n.tickets++
+	return n.tickets
+}
+
+// TicketDialer returns a context dialer whose connections get indexes derived from the ticket.
+func (n *Net) TicketDialer(ticket int) func(ctx context.Context, addr string) (net.Conn, error) {
+	attempt := 0
+	var mu sync.Mutex
+	return func(ctx context.Context, addr string) (net.Conn, error) {
+		mu.Lock()
+		idx := 1000 + ticket*8 + attempt%8
+		attempt++
+		mu.Unlock()
+		return n.dial(ctx, 0, addr, idx)
+	}
+}
+
 func (n *Net) Dial(ctx context.Context, timeout time.Duration, addr string) (net.Conn, error) {
+	n.mu.Lock()
+	idx := n.Dials
+	n.Dials++
+	n.mu.Unlock()
+	return n.dial(ctx, timeout, addr, idx)
+}
+
+func (n *Net) dial(ctx context.Context, timeout time.Duration, addr string, idx int) (net.Conn, error) {
 	ra, err := n.tcpAddr(addr)
 	if err != nil {
 		return nil, &net.OpError{Op: "dial", Net: "tcp", Err: err}
@@ -574,8 +630,6 @@ func (n *Net) Dial(ctx context.Context, timeout time.Duration, addr string) (net
 		n.mu.Unlock()
 		return nil, &net.OpError{Op: "dial", Net: "tcp", Addr: ra, Err: errors.New("simnet: run is over")}
 	}
-	idx := n.Dials
-	n.Dials++
 	l := n.listeners[addr]
 	if l == nil {
 		l = n.listeners[ra.String()]
@@ -608,7 +662,7 @@ func (n *Net) Dial(ctx context.Context, timeout time.Duration, addr string) (net
 		n.fire("connect-delay")
 	}
 	// the connect completes at an instant of its own (see slot): goroutines woken by the clock never run side by side
-	dt := time.NewTimer(time.Until(n.slot(time.Now().Add(delay))))
+	dt := time.NewTimer(time.Until(n.instant(time.Now().Add(delay), 3*idx+2)))
 	defer dt.Stop()
 	select {
 	case <-dt.C:
@@ -619,8 +673,8 @@ func (n *Net) Dial(ctx context.Context, timeout time.Duration, addr string) (net
 		return nil, &net.OpError{Op: "dial", Net: "tcp", Addr: ra, Err: ctx.Err()}
 	}
 	c := &Conn{Index: idx, Addr: addr, Plan: plan, n: n, DialedAt: time.Now()}
-	c.c2s = &stream{wake: make(chan struct{}, 1)}
-	c.s2c = &stream{wake: make(chan struct{}, 1)}
+	c.c2s = &stream{wake: make(chan struct{}, 1), off: 3 * idx}
+	c.s2c = &stream{wake: make(chan struct{}, 1), off: 3*idx + 1}
 	c.cli = &endpoint{c: c, client: true, in: c.s2c, out: c.c2s, local: local, remote: ra}
 	c.srv = &endpoint{c: c, in: c.c2s, out: c.s2c, local: ra, remote: local}
 	n.mu.Lock()
